@@ -226,3 +226,43 @@ ben('ben-c12-param-repr-concat', ['C12', 'C02', 'C03'], ('parameter.py', "      
 ben('ben-c12-dict-branch-loop', ['C12', 'C02', 'C03'], ('utils/clazz.py', "        return (\n            '{'\n            + ', '.join(\n                f\"{repr_from_instantiation(key)}: {repr_from_instantiation(val)}\" for key, val in sorted(obj.items())\n            )\n            + '}'\n        )",
     "        items = []\n        for key, val in sorted(obj.items()):\n            items.append(repr_from_instantiation(key) + ': ' + repr_from_instantiation(val))\n        return '{' + ', '.join(items) + '}'"))
 ben('ben-c12-slug-local', ['C12'], ('task.py', "        if cls.group:\n            return f'{cls.group}:{name}'\n        return name", "        group = cls.group\n        if not group:\n            return name\n        return group + ':' + name"))
+
+# ---------------------------------------------------------------------------------------------- C02
+mut('c02-registry-unsorted', 'C02', 'R02.1', ('parameter.py', "        for name, parameter in sorted(self._parameters.items()):\n            repr = parameter.repr", "        for name, parameter in self._parameters.items():\n            repr = parameter.repr"))
+mut('c02-inputs-unsorted', 'C02', 'R02.1', ('chain.py', "for n, it in sorted(self.input_tasks.items()))\n        return sha256", "for n, it in self.input_tasks.items())\n        return sha256"))
+mut('c02-dict-value-unsorted', 'C02', 'R02.1', ('utils/clazz.py', "for key, val in sorted(obj.items())\n", "for key, val in obj.items()\n"))
+mut('c02-auto-args-unsorted', 'C02', 'R02.1', ('parameter.py', "for k, v in sorted(args.items()))", "for k, v in args.items())"))
+mut('c02-dict-iter-keys', 'C02', 'R02.1', ('utils/clazz.py', "                f\"{repr_from_instantiation(key)}: {repr_from_instantiation(val)}\" for key, val in sorted(obj.items())\n", "                f\"{repr_from_instantiation(key)}: {repr_from_instantiation(obj[key])}\" for key in obj\n"))
+mut('c02-value-builtin-repr', 'C02', 'R02.2', ('parameter.py', "        return repr_from_instantiation(self.value)", "        return repr(self.value)"))
+mut('c02-config-name-in-key', 'C02', 'R02.3', ('chain.py', "        return sha256(f'{parameter_repr}$$${input_tasks_repr}'.encode()).hexdigest()[:32]", "        return sha256(f'{self.original_config.name}{parameter_repr}$$${input_tasks_repr}'.encode()).hexdigest()[:32]"))
+mut('c02-namespace-kept', 'C02', 'R02.3', ('chain.py', "                assert _name.startswith(outer_namespace)\n                _name = _name[len(outer_namespace) + 2 :]\n", "                assert _name.startswith(outer_namespace)\n"))
+mut('c02-namespace-in-key', 'C02', 'R02.3', ('chain.py', "        return sha256(f'{parameter_repr}$$${input_tasks_repr}'.encode()).hexdigest()[:32]", "        return sha256(f'{self.namespace}|{parameter_repr}$$${input_tasks_repr}'.encode()).hexdigest()[:32]"))
+mut('c02-process-hash', 'C02', 'R02.3', ('chain.py', "        return sha256(f'{parameter_repr}$$${input_tasks_repr}'.encode()).hexdigest()[:32]", "        return sha256(f'{hash(parameter_repr)}$$${input_tasks_repr}'.encode()).hexdigest()[:32]"))
+mut('c02-ignore-flag-ignored', 'C02', 'R02.4', ('parameter.py', "        if self.ignore_persistence:\n            return None\n\n        if self.dont_persist_default_value", "        if self.dont_persist_default_value"))
+mut('c02-default-always-persisted', 'C02', 'R02.4', ('parameter.py', "        if self.dont_persist_default_value and self.value == self.default:\n            return None\n", ""))
+mut('c02-none-reprs-kept', 'C02', 'R02.4', ('parameter.py', "            if repr is not None:\n                reprs.append(repr)", "            reprs.append(str(repr))"))
+mut('c02-auto-ignored-args-kept', 'C02', 'R02.4', ('parameter.py', "            if arg in ignore_persistence_args:\n                continue\n", ""))
+mut('c02-str-branch-first', 'C02', 'R02.5', ('utils/clazz.py', "    if hasattr(obj, 'repr'):\n        if callable(obj.repr):\n            return obj.repr()\n        else:\n            return obj.repr\n    if isinstance(obj, str):\n        return f\"'{obj}'\"\n",
+                                             "    if isinstance(obj, str):\n        return f\"'{obj}'\"\n    if hasattr(obj, 'repr'):\n        if callable(obj.repr):\n            return obj.repr()\n        else:\n            return obj.repr\n"))
+mut('c02-reprstr-repr-value', 'C02', 'R02.5', ('utils/data.py', "    def __repr__(self):\n        return self.repr", "    def __repr__(self):\n        return repr(str(self))"))
+mut('c02-prefix-reprstr-copy', 'C02', 'R02.5', ('utils/data.py', "        s = str.__new__(ReprStr, str(self))\n        s.repr = self.repr\n        return s", "        return ReprStr(str(self), self.repr)"))
+mut('c02-apply-passes-substituted', 'C02', None, ('utils/data.py', "            return ReprStr(new_string, string)", "            return ReprStr(new_string, repr(string))"))
+
+ben('ben-c02-sorted-key-first', ['C02', 'C12', 'C03'], ('chain.py', "for n, it in sorted(self.input_tasks.items()))\n        return sha256", "for n, it in sorted(self.input_tasks.items(), key=lambda kv: kv[0]))\n        return sha256"))
+ben('ben-c02-flags-nested', ['C02', 'C12'], ('parameter.py', "        if self.dont_persist_default_value and self.value == self.default:\n            return None\n", "        if self.dont_persist_default_value:\n            if self.value == self.default:\n                return None\n"))
+
+# ---------------------------------------------------------------------------------------------- C03
+mut('c03-digest-16', 'C03', 'R03.3', ('chain.py', ".encode()).hexdigest()[:32]", ".encode()).hexdigest()[:16]"))
+mut('c03-digest-md5', 'C03', 'R03.3', ('chain.py', "        return sha256(f'{parameter_repr}$$${input_tasks_repr}'.encode()).hexdigest()[:32]", "        import hashlib\n        return hashlib.md5(f'{parameter_repr}$$${input_tasks_repr}'.encode()).hexdigest()[:32]"))
+mut('c03-no-name-binding', 'C03', 'R03.5', ('parameter.py', "        return f'{self.name}={self.value_repr()}'", "        return f'{self.value_repr()}'"))
+mut('c03-inputs-without-names', 'C03', 'R03.5', ('chain.py', "            return f'{_name}={_task}'", "            return f'{_task}'"))
+mut('c03-sections-concatenated', 'C03', 'R03.5', ('chain.py', "        return sha256(f'{parameter_repr}$$${input_tasks_repr}'.encode()).hexdigest()[:32]", "        return sha256(f'{parameter_repr}{input_tasks_repr}'.encode()).hexdigest()[:32]"))
+mut('c03-inputs-dropped-from-hash', 'C03', 'R03.5', ('chain.py', "        return sha256(f'{parameter_repr}$$${input_tasks_repr}'.encode()).hexdigest()[:32]", "        return sha256(f'{parameter_repr}$$$'.encode()).hexdigest()[:32]"))
+mut('c03-scalar-str', 'C03', 'R03.4', ('utils/clazz.py', "        return obj._taskchain_instantiate_repr\n    return repr(obj)", "        return obj._taskchain_instantiate_repr\n    return str(obj)"))
+mut('c03-list-prefix-only', 'C03', 'R03.2', ('utils/clazz.py', "        return '[' + ', '.join(repr_from_instantiation(val) for val in obj) + ']'", "        return '[' + ', '.join(repr_from_instantiation(val) for val in obj[:10]) + ']'"))
+mut('c03-dict-keys-only', 'C03', 'R03.2', ('utils/clazz.py', "                f\"{repr_from_instantiation(key)}: {repr_from_instantiation(val)}\" for key, val in sorted(obj.items())\n", "                f\"{repr_from_instantiation(key)}\" for key, val in sorted(obj.items())\n"))
+mut('c03-dict-branch-removed', 'C03', 'R03.2', ('utils/clazz.py', "    if isinstance(obj, dict):\n        return (\n            '{'\n            + ', '.join(\n                f\"{repr_from_instantiation(key)}: {repr_from_instantiation(val)}\" for key, val in sorted(obj.items())\n            )\n            + '}'\n        )\n", ""))
+mut('c03-list-filter-falsy', 'C03', 'R03.2', ('utils/clazz.py', "        return '[' + ', '.join(repr_from_instantiation(val) for val in obj) + ']'", "        return '[' + ', '.join(repr_from_instantiation(val) for val in obj if val) + ']'"))
+mut('c03-new-raw-splice', 'C03', 'R03.1', ('parameter.py', "        return repr_from_instantiation(self.value)", "        if isinstance(self.value, str):\n            return '\"' + self.value + '\"'\n        return repr_from_instantiation(self.value)"))
+mut('c03-auto-repr-raw-values', 'C03', 'R03.1', ('parameter.py', "        args_repr = ', '.join(f'{k}={repr(v)}' for k, v in sorted(args.items()))", "        args_repr = ', '.join(f'{k}={v}' for k, v in sorted(args.items()))"))
+mut('c03-value-repr-bypass', 'C03', 'R03.2', ('parameter.py', "        return repr_from_instantiation(self.value)", "        return str(type(self.value).__name__)"))
